@@ -302,3 +302,45 @@ Lemma sparse_fix_in_range_lemma : forall p row u, p <> [] -> sparse_of 0 p row -
 Proof.
   intros p row u Hne H Hu. rewrite (sparse_fix_eq_dense_lemma p row u H Hu). apply dense_in_range_lemma; exact Hne.
 Qed.
+
+(* ------------------------------------------------------------------ sampling a model *)
+From AIT Require Import Base.Mdp.
+
+(* the next state follows the model's own transition row: index i is drawn on an interval of [0,1]
+   of length T(s,a,i); the reward is the model's R(s,a) *)
+Lemma sample_sr_lemma : forall m s a, wf_mdp m -> (s < nS m)%nat -> (a < nA m)%nat ->
+  forall u, 0 <= u -> u < 1 ->
+  let '(s1, r) := sample_sr m s a u in
+  (s1 < nS m)%nat /\ r = nthq (row (R m) s) a /\
+  forall i, (i < nS m)%nat ->
+    (s1 = i <-> cum (trow m s a) i <= u /\ u < cum (trow m s a) (S i)) /\
+    cum (trow m s a) (S i) - cum (trow m s a) i == nthq (trow m s a) i.
+Proof.
+  intros m s a Hwf Hs Ha u Hu0 Hu1. unfold sample_sr.
+  destruct Hwf as [_ [_ [_ [_ [_ [_ [_ [Hrow _]]]]]]]].
+  destruct (Hrow a s Ha Hs) as [Hlen Hd]. fold (trow m s a) in Hlen, Hd.
+  assert (Hne : trow m s a <> []) by (intros E; rewrite E in Hlen; cbn in Hlen; lia).
+  split; [rewrite <- Hlen; apply dense_in_range_lemma; exact Hne|]. split; [reflexivity|].
+  intros i Hi. rewrite <- Hlen in Hi.
+  destruct (dense_mass_exact_lemma (trow m s a) i Hd Hi) as [H1 [_ [_ [H2 _]]]].
+  split; [apply H1; assumption| exact H2].
+Qed.
+
+Lemma sample_sor_lemma : forall m s a, wf_pomdp m -> (s < nS (pm m))%nat -> (a < nA (pm m))%nat ->
+  forall u1 u2, 0 <= u1 -> u1 < 1 -> 0 <= u2 -> u2 < 1 ->
+  let '(s1, o, r) := sample_sor m s a u1 u2 in
+  (s1, r) = sample_sr (pm m) s a u1 /\ (s1 < nS (pm m))%nat /\ (o < nO m)%nat /\
+  forall j, (j < nO m)%nat ->
+    (o = j <-> cum (orow m s1 a) j <= u2 /\ u2 < cum (orow m s1 a) (S j)) /\
+    cum (orow m s1 a) (S j) - cum (orow m s1 a) j == nthq (orow m s1 a) j.
+Proof.
+  intros m s a [Hwf [HO [_ [_ Hob]]]] Hs Ha u1 u2 H10 H11 H20 H21. unfold sample_sor.
+  pose proof (sample_sr_lemma (pm m) s a Hwf Hs Ha u1 H10 H11) as Hsr.
+  destruct (sample_sr (pm m) s a u1) as [s1 r]. destruct Hsr as [Hs1 _].
+  destruct (Hob a s1 Ha Hs1) as [Hlen Hd]. fold (orow m s1 a) in Hlen, Hd.
+  assert (Hne : orow m s1 a <> []) by (intros E; rewrite E in Hlen; cbn in Hlen; lia).
+  split; [reflexivity|]. split; [exact Hs1|]. split; [rewrite <- Hlen; apply dense_in_range_lemma; exact Hne|].
+  intros j Hj. rewrite <- Hlen in Hj.
+  destruct (dense_mass_exact_lemma (orow m s1 a) j Hd Hj) as [H1 [_ [_ [H2 _]]]].
+  split; [apply H1; assumption| exact H2].
+Qed.
